@@ -57,13 +57,17 @@ Open Scope N_scope.
       additional hypothesis [WPrintable] (names are NCNames with an optional NCName prefix -- an
       invariant of every reachable world, C15), which makes "same qualified name" and "same
       nodeName" coincide;
+      [C13_step_refines_partial_remove_attribute], [C13_step_refines_partial_remove_named_item]:
+      by-name removal -- where the name designates at most one attribute in both readings the
+      effect is Level 1's, where prefixes make it ambiguous (reading R1) the model does one of the
+      two admissible things; remove_named_item outside the finding class C13-NS-HIDDEN
+      ([KnownNsHidden]: the name is the local part of a namespace declaration of the element);
     - rung "character data" [C13_step_refines_partial_data]: set_data, append_data, insert_data,
       delete_data, replace_data -- unconditional;
     - rung "text factories" [C13_step_refines_partial_factories]: create_text_node, create_comment,
       create_cdata_section, create_document_fragment, outside D42 ([Known42]).
-    NOT PROVED: replace_child on the Document, the attribute calls that take names or look
-    attributes up (set_attribute, remove_attribute, remove_named_item, remove_attribute_node --
-    the last needs that qualified names are unique within an element), split_text, the PI calls and
+    NOT PROVED: replace_child on the Document, set_attribute, remove_attribute_node (it needs that
+    qualified names are unique within an element), split_text, the PI calls and
     the factories that take names (the last three groups need the agreement of the
     implementation's parser facts with the grammar of the specification).  Those are compared with
     the extracted [dom_step] on the implementation, call by call, by checks/C13.py (the matrix of
@@ -96,6 +100,18 @@ Theorem C13_step_refines_partial_set_named_item : forall w (r a : nref),
   DomL1.conforms (abs w) (DomL1.ASetNamedItem r a) (abs (fst (step w (SetNamedItem r a))))
                  (outcome_class (snd (step w (SetNamedItem r a)))).
 Proof. exact step_refines_partial_set_named_item. Qed.
+
+Theorem C13_step_refines_partial_remove_attribute : forall w (r : nref) name,
+  WInv w -> WPrintable w ->
+  DomL1.conforms (abs w) (DomL1.ARemoveAttribute r name) (abs (fst (step w (RemoveAttribute r name))))
+                 (outcome_class (snd (step w (RemoveAttribute r name)))).
+Proof. exact step_refines_partial_remove_attribute. Qed.
+
+Theorem C13_step_refines_partial_remove_named_item : forall w (r : nref) name,
+  WInv w -> WPrintable w -> KnownNsHidden w r name = false ->
+  DomL1.conforms (abs w) (DomL1.ARemoveNamedItem r name) (abs (fst (step w (RemoveNamedItem r name))))
+                 (outcome_class (snd (step w (RemoveNamedItem r name)))).
+Proof. exact step_refines_partial_remove_named_item. Qed.
 
 Theorem C13_step_refines_partial_data : forall w o ao,
   WInv w -> is_data_op o = true -> abs_op o = Some ao -> refines_on w o ao.
@@ -177,6 +193,8 @@ Print Assumptions C13_step_refines_partial_insert.
 Print Assumptions C13_step_refines_partial_replace.
 Print Assumptions C13_step_refines_partial_set_attribute_node.
 Print Assumptions C13_step_refines_partial_set_named_item.
+Print Assumptions C13_step_refines_partial_remove_attribute.
+Print Assumptions C13_step_refines_partial_remove_named_item.
 Print Assumptions C13_step_refines_partial_data.
 Print Assumptions C13_step_refines_partial_remove.
 Print Assumptions C13_step_refines_partial_factories.
